@@ -418,6 +418,171 @@ def spec_len(ex, ctx, outcome):
                             outcome[1] == L.IntV(container_len(ex, ctx['entry'], c))))
 
 
+# --------------------------------------------------------------------------------------------- C07: glue of the other builtins
+def stubs_applied(ex, name):
+    return [e for e in ex.events if e[0] == 'stub' and e[1] == name]
+
+
+def spec_sorted(ex, ctx, outcome):
+    n = lab(ex)
+    c, key, rev = arg(ctx, 'container'), ex.to_val(arg(ctx, 'key')), ex.to_val(arg(ctx, 'reverse'))
+    ss = stubs_applied(ex, 'sorted')
+    if outcome[0] == 'return':
+        ex.prove('C07:%s:sorts-once' % n, ['C07', 'C13'], len(ss) == 1)
+        for s in ss:
+            kw = s[3]
+            ex.prove('C07:%s:reverse-flag-passed-through' % n, ['C07'], ex.to_val(kw.get('reverse', L.FalseV)) == rev)
+            ex.prove('C07:%s:a-list-is-sorted-itself-a-dict-by-its-items' % n, ['C07'],
+                     z3.Implies(z3.Not(L.is_Dict(c)), s[2][0] == c))
+        r = outcome[1]
+        ex.prove('C07:%s:dict-gives-dict-everything-else-a-list' % n, ['C07', 'C02'],
+                 z3.If(L.is_Dict(c), L.is_Dict(r), L.is_List(r)))
+
+
+def spec_reversed(ex, ctx, outcome):
+    n = lab(ex)
+    c = arg(ctx, 'container')
+    h0, h = ctx['entry'], ex.heap
+    if outcome[0] == 'return':
+        r = outcome[1]
+        ex.prove('C07:%s:string-gives-string-everything-else-a-new-list' % n, ['C07', 'C02'],
+                 z3.If(L.is_Str(c), L.is_Str(r), z3.And(L.is_List(r), ex.is_fresh(Val.lref(r)))))
+        lr = Val.lref(c)
+        ln = h0.llen(lr)
+        ex.prove('C07:%s:list-elements-in-reverse-order' % n, ['C07', 'C14'],
+                 z3.Implies(L.is_List(c), z3.And(h.llen(Val.lref(r)) == ln,
+                                                 z3.Implies(z3.And(K >= 0, K < ln), h.lelt(Val.lref(r), K) == h0.lelt(lr, ln - 1 - K)))))
+
+
+def spec_join(ex, ctx, outcome):
+    n = lab(ex)
+    c, sep = arg(ctx, 'container'), ex.to_val(arg(ctx, 'sep'))
+    js = stubs_applied(ex, 'str.join')
+    if outcome[0] == 'return':
+        ex.prove('C07:%s:joins-once-with-the-separator-as-receiver' % n, ['C07'],
+                 len(js) == 1 and True and (js[0][2][0] == sep) if js else False)
+        ms = getattr(ex, 'mapped_str', [])
+        ex.prove('C07:%s:joins-str()-of-each-element-of-the-container' % n, ['C07'],
+                 z3.Implies(L.is_List(c), z3.And(ms[-1][2] == ctx['entry'].lelts(Val.lref(c)), outcome[1] == js[0][4]))
+                 if ms and js else False)
+
+
+def spec_split(ex, ctx, outcome):
+    n = lab(ex)
+    s, sep, mx = arg(ctx, 's'), ex.to_val(arg(ctx, 'sep')), ex.to_val(arg(ctx, 'max_split'))
+    ss = stubs_applied(ex, 'str.split')
+    if outcome[0] == 'return':
+        ints = [e for e in ex.events if e[0] == 'int_of']
+        ex.prove('C07:%s:splits-the-string-at-the-separator-with-int(max_split)' % n, ['C07'],
+                 z3.And(ss[0][2][0] == s, ss[0][2][1] == sep, z3.BoolVal(len(ints) == 1), ints[0][1] == mx, outcome[1] == ss[0][4])
+                 if len(ss) == 1 and ints else False)
+
+
+def spec_replace(ex, ctx, outcome):
+    n = lab(ex)
+    s, old, new, cnt = arg(ctx, 's'), arg(ctx, 'old'), arg(ctx, 'new'), ex.to_val(arg(ctx, 'count'))
+    ss = stubs_applied(ex, 'str.replace')
+    if outcome[0] == 'return':
+        ints = [e for e in ex.events if e[0] == 'int_of']
+        ex.prove('C07:%s:replaces-old-by-new-in-the-string-int(count)-times' % n, ['C07'],
+                 z3.And(ss[0][2][0] == s, ss[0][2][1] == old, ss[0][2][2] == new, z3.BoolVal(len(ints) == 1), ints[0][1] == cnt,
+                        outcome[1] == ss[0][4]) if len(ss) == 1 and ints else False)
+
+
+def spec_sum(ex, ctx, outcome):
+    n = lab(ex)
+    v = arg(ctx, 'value')
+    if outcome[0] == 'return':
+        sums = [e for e in ex.events if e[0] == 'sum_of']
+        ex.prove('C07:%s:sum-of-a-list-anything-else-unchanged' % n, ['C07'],
+                 z3.If(L.is_List(v), z3.And(z3.BoolVal(len(sums) == 1), sums[0][1] == v, outcome[1] == sums[0][4]) if sums else z3.BoolVal(False),
+                       outcome[1] == v))
+
+
+def spec_filter(ex, ctx, outcome):
+    n = lab(ex)
+    c, f = arg(ctx, 'container'), arg(ctx, 'f')
+    fs = stubs_applied(ex, 'filter')
+    if outcome[0] == 'return':
+        ex.prove('C07:%s:filters-the-list-with-the-function' % n, ['C07'],
+                 z3.And(L.is_List(c), ex.to_val(fs[0][2][0]) == f, fs[0][2][1] == c, L.is_List(outcome[1]), ex.is_fresh(Val.lref(outcome[1])))
+                 if len(fs) == 1 else False)
+    else:
+        rs = ev(ex, 'raise')
+        if rs and str(rs[-1][2]).startswith('explicit'):
+            ex.prove('C16:%s:non-list-is-ParserError' % n, ['C16', 'C07'], z3.And(z3.Not(L.is_List(c)), L.exc_is_sub(outcome[1], PE)))
+
+
+def spec_reduce(ex, ctx, outcome):
+    n = lab(ex)
+    c, f = arg(ctx, 'container'), arg(ctx, 'f')
+    rs_ = stubs_applied(ex, 'reduce')
+    if outcome[0] == 'return':
+        ex.prove('C07:%s:reduces-the-container-with-the-function' % n, ['C07'],
+                 z3.And(ex.to_val(rs_[0][2][0]) == f, rs_[0][2][1] == c) if len(rs_) == 1 and len(rs_[0][2]) == 2 else False)
+
+
+def spec_list(ex, ctx, outcome):
+    n = lab(ex)
+    if outcome[0] == 'return':
+        pack = arg(ctx, 'args')
+        r = outcome[1]
+        pr = Val.tref(pack)
+        h0, h = ctx['entry'], ex.heap
+        ex.prove('C07:%s:a-new-list-of-exactly-the-arguments' % n, ['C07', 'C14', 'C17'],
+                 z3.And(L.is_List(r), ex.is_fresh(Val.lref(r)), h.llen(Val.lref(r)) == h0.llen(pr),
+                        z3.Implies(z3.And(K >= 0, K < h0.llen(pr)), h.lelt(Val.lref(r), K) == h0.lelt(pr, K))))
+
+
+def _numeric_lambda(prim):
+    def spec(ex, ctx, outcome):
+        n = lab(ex)
+        if outcome[0] != 'return':
+            return
+        decs = [e for e in ex.events if e[0] == 'prim' and e[1] == 'decimal_of']
+        inner = [e for e in ex.events if e[0] == prim]
+        a0 = ctx['args'][0]
+        v = ex.to_val(a0) if not isinstance(a0, Pack) else ctx['entry'].lelt(Val.tref(a0.val), 0)
+        ok = len(decs) == 1 and len(inner) >= 1
+        ex.prove('C07:%s:Decimal-of-%s-of-the-argument' % (n, prim.replace('_of', '')), ['C07', 'C08'],
+                 z3.And(inner[0][1 if prim != 'floorceil_of' else 2] == v, outcome[1] == decs[0][3]) if ok else False)
+    return spec
+
+
+spec_int = _numeric_lambda('int_of')
+spec_float = _numeric_lambda('float_of')
+spec_abs = _numeric_lambda('abs_of')
+spec_floor = _numeric_lambda('floorceil_of')
+spec_ceil = _numeric_lambda('floorceil_of')
+spec_round = _numeric_lambda('round_of')
+
+
+def iter_map(ex, ctx, key, i, desc):
+    """C07/C09 for map: one step applies the function exactly once to its own element (key and value for a dict)"""
+    n = lab(ex)
+    it = [e for e in ex.events if e[0] == 'loop_iter']
+    start = ex.events.index(it[-1]) if it else 0
+    calls = [e for e in ex.events[start:] if e[0] == 'call' and e[1] == 'ucc']
+    elems = [e for e in ex.events[start:] if e[0] == 'comp_elem']
+    f = arg(ctx, 'f')
+    c = arg(ctx, 'container')
+    ok = len(calls) == 1 and len(elems) == 1
+    ex.prove('C07:%s:each-step-applies-the-function-once' % n, ['C07', 'C09', 'C01'], ok, {'calls': len(calls)})
+    if ok:
+        a = calls[0][3]
+        ex.prove('C07:%s:applies-the-given-function-and-keeps-its-result' % n, ['C07'],
+                 z3.And(calls[0][2] == f, elems[0][4] == calls[0][4]))
+        el = [e for e in ex.events[start:] if e[0] == 'loop_elem'][-1][3]      # the element as it was when the step began
+        if desc.kind in ('seq', 'str'):
+            ex.prove('C07:%s:to-its-own-element' % n, ['C07', 'C09'], (ex.to_val(a[0]) == ex.to_val(el)) if len(a) == 1 else False)
+        elif desc.kind == 'dictitems':
+            ex.prove('C07:%s:to-key-and-value-of-its-own-item' % n, ['C07', 'C09'],
+                     z3.And(ex.to_val(a[0]) == el[0], ex.to_val(a[1]) == el[1]) if len(a) == 2 and isinstance(el, tuple) else False)
+
+
+ITERATION_SPECS = {'map': iter_map}
+
+
 # --------------------------------------------------------------------------------------------- C19
 def spec_rand(ex, ctx, outcome):
     n = lab(ex)
